@@ -12,12 +12,21 @@ Streams
 import random, itertools, json, os, glob, math
 from fractions import Fraction
 import common
-from common import zlit, qlit, slit
+from common import slit
 
 PRE = ('From Coq Require Import ZArith QArith List Bool String.\n'
        'Require Import WV.model.C06Cascade WV.model.C06Inherit WV.model.C06Values WV.model.C06Judge.\n'
        'Import ListNotations.\nOpen Scope string_scope.\nOpen Scope Z_scope.\n')
 INF = float('inf')
+
+
+def zlit(n):
+    return '(%d)%%Z' % n
+
+
+def qlit(fr):
+    fr = Fraction(fr)
+    return '((%d)#%d)%%Q' % (fr.numerator, fr.denominator)
 
 
 def blit(b):
@@ -74,7 +83,8 @@ NON_PROPS = ['z-index', 'margin-left', 'order', 'padding-top']
 
 UA_BASE = ('html, body, div, p, section, ul, center { display: block } li { display: list-item } '
            'head, style, link { display: none } body { font-family: weasyprint; font-size: 10px; line-height: 10px } '
-           '[data-b]::before { content: "b" }\n')
+           '[data-b]::before { content: "b" } @page { bleed: 0; @footnote { margin: 0 } } '
+           '::marker { font-variant-numeric: tabular-nums }\n')
 
 
 # =============================================================================================== DOM model
@@ -376,8 +386,8 @@ def items_text(items):
 
 
 def media_applies(types, device):
-    """CSS: a media type list applies iff it names `all` or the device's type"""
-    return any(t == 'all' or t == device for t in types)
+    """CSS: a media type list applies iff it names `all` or the device's type (ASCII case-insensitive)"""
+    return any(t.lower() == 'all' or t.lower() == device for t in types)
 
 
 def flatten(items, device, files_items, top=True):
@@ -393,9 +403,9 @@ def flatten(items, device, files_items, top=True):
                 continue
             out.extend(flatten(files_items[it[1]], device, files_items, True))
         elif it[0] == 'rule':
-            seen_other = True
             if it[1].get('invalid'):
-                continue
+                continue                      # an ignored statement does not end the @import section (CSS 2.1 4.1.5)
+            seen_other = True
             out.append(it[1])
         elif it[0] == 'media':
             seen_other = True
@@ -462,7 +472,7 @@ def build_doc(doc):
 
 def sheet_applies(sh, device):
     if sh['kind'] in ('style', 'link'):
-        if sh.get('type') and sh['type'].split(';')[0].strip() != 'text/css':
+        if sh.get('type') and sh['type'].split(';')[0].strip().lower() != 'text/css':
             return False
         if sh.get('media') is not None and not media_applies(sh['media'] or ['all'], device):
             return False
@@ -757,7 +767,11 @@ def add_hints(rng, els, props, vid):
             e['hints'].sort(key=lambda h: 0 if h[0] in ('marginwidth', 'leftmargin') else 1)
 
 
-def gen_doc(rng):
+def finding_listed(sig):
+    return any(k.get('signature') == sig for k in common.load_known())
+
+
+def gen_doc(rng, attr_case=False):
     nmax = rng.choice([4, 6, 8, 10, 12, 12])
     html, els = gen_tree(rng, nmax)
     props = rng.sample(INH_PROPS, 2) + rng.sample(NON_PROPS, 2)
@@ -779,6 +793,13 @@ def gen_doc(rng):
             sh['rel'] = rng.choice(['alternate stylesheet', 'Stylesheet', 'stylesheet alternate', 'icon'])
         if kind == 'style' and rng.random() < 0.06:
             sh['type'] = rng.choice(['text/plain', 'text/css; charset=utf-8'])
+        if attr_case and kind in ('style', 'link') and rng.random() < 0.08:
+            # HTML: media types and the type attribute match ASCII case-insensitively (finding c06-stylesheet-attr-case)
+            if rng.random() < 0.5:
+                sh['media'] = [m.upper() for m in (sh.get('media') or ['print', 'screen'])]
+            elif kind == 'style':
+                sh['type'] = 'TEXT/CSS'
+            sh['attr_case'] = True
         sheets.append(sh)
     # one author <style> may sit in the body (document order still decides)
     body_styles = [s for s in sheets if s['kind'] == 'style']
@@ -791,7 +812,7 @@ def gen_doc(rng):
             e['style'] = gen_decls(rng, props, vid, k=rng.choice([1, 1, 2]), imp_p=0.15)
     add_hints(rng, els, props, vid)
     return dict(html=html, els=els, sheets=sheets, props=props, device=rng.choice(['print', 'print', 'print', 'screen']),
-                hints=rng.random() < 0.5)
+                hints=rng.random() < 0.5, attr_case=any(s.get('attr_case') for s in sheets))
 
 
 # ---- exhaustive pairs / triples for one property (text-align) on one target element
@@ -944,7 +965,10 @@ def run_cascade_stream(run, name, docs, thorough):
                      'has %s (%s)' % (name, df['element'], '::' + df['pseudo'] if df['pseudo'] else '', df['prop'],
                                       df['expected'], df['got'], 'style_for' if diffs else 'box.style'),
                      {'stream': name, 'case': c, 'diff': df, 'all_diffs': (diffs or diffs_b)[:10],
-                      'doc': slim(d)}, signature='c06-cascade-mismatch')
+                      'doc': slim(d)},
+                     signature='c06-stylesheet-attr-case' if d.get('attr_case') else 'c06-cascade-mismatch')
+        if d.get('attr_case') and (diffs or diffs_b):
+            continue
         n_el += len(obs)
         n_decided += len(obs) * len(d['props'])
         coq_cases.append(coq_tree_case(d, ref, obs))
@@ -1040,6 +1064,8 @@ def gen_direct(rng, thorough):
     # larger / smaller around every table boundary
     for b in [Fraction(48, 5), 12, Fraction(128, 9), 16, Fraction(96, 5), 24, 32]:
         for dlt in [Fraction(-1, 100), 0, Fraction(1, 100)]:
+            if dlt == 0 and Fraction(b).denominator != 1:
+                continue          # 9.6, 14.22.., 19.2 are not floats: the exact boundary is a rounding matter
             for v in ('larger', 'smaller'):
                 cases.append(('font_size', dict(parent_fs=str(b + dlt), root_fs='16', value=v), None))
     # font-weight: exhaustive over the valid weights, plus the root
@@ -1095,9 +1121,12 @@ def run_direct(run, rng, thorough):
     by_fn = {}
     for fn, c, _ in cases:
         by_fn.setdefault(fn, []).append(c)
-    results = {}
+    flat = [(fn, c) for fn, cs in by_fn.items() for c in cs]
+    res = common.run_impl('impl_c06', 'direct', flat, chunksize=32)
+    results, k = {}, 0
     for fn, cs in by_fn.items():
-        results[fn] = common.run_impl('impl_c06', fn, cs, chunksize=64)
+        results[fn] = res[k:k + len(cs)]
+        k += len(cs)
     coq_cases, kept = [], []
     for fn, cs in by_fn.items():
         for c, (st, o) in zip(cs, results[fn]):
@@ -1122,7 +1151,7 @@ def run_direct(run, rng, thorough):
                  {'stream': 'prec-direct', 'table': {str(k): v for k, v in tbl.items()}},
                  signature='c06-precedence-order')
     try:
-        masks = common.eval_cases('c06direct', PRE + 'Open Scope Q_scope.\n', 'dcase', coq_cases, 'judge_direct',
+        masks = common.eval_cases('c06direct', PRE, 'dcase', coq_cases, 'judge_direct',
                                   per_file=400)
         mism = [(fn, c, o) for (fn, c, o), m in zip(kept, masks) if m & 1]
         for fn in sorted(by_fn):
@@ -1226,49 +1255,346 @@ def values_case(nodes, via_rules):
                 user_css=[], files={}, media='print', hints=False, keys=VPROPS)
 
 
-def ref_values(nodes):
-    """exact reference for font-size / lengths / line-height / font-weight, top-down"""
-    out = {}
-    kw = {k: Fraction(16) * f for k, f in zip(FS_KW, [Fraction(3, 5), Fraction(3, 4), Fraction(8, 9), Fraction(1),
-                                                       Fraction(6, 5), Fraction(3, 2), Fraction(2)])}
-    root_fs = [None]
+KWV = {k: Fraction(16) * f for k, f in zip(FS_KW, [Fraction(3, 5), Fraction(3, 4), Fraction(8, 9), Fraction(1),
+                                               Fraction(6, 5), Fraction(3, 2), Fraction(2)])}
+BOLDER = lambda w: 400 if w < 350 else 700 if w < 550 else 900 if w < 900 else w      # CSS Fonts table
+LIGHTER = lambda w: w if w < 100 else 100 if w < 550 else 400 if w < 750 else 700
 
-    def length(v, own_fs, rootfs):
+
+def near(a, b):
+    return abs(float(a) - float(b)) <= 1e-9 * (1 + abs(float(b)))
+
+
+def snap(x):
+    """a float that is the rounding of a keyword size (16 * 8/9 ...) denotes that rational"""
+    for k in KWV.values():
+        if near(x, k):
+            return k
+    return Fraction(x)
+
+
+def judge_values(nodes, obs):
+    """local consistency of every element's computed values with its declarations and the OBSERVED computed values
+    of its parent / the root (which composes to the whole tree by induction from the root).
+    obs: {n: dict(fs, ml, lh, fw, ti)} normalized.  Returns (list of problems, list of Coq direct cases)."""
+    bad, coq = [], []
+    root = obs.get(0)
+
+    def length_expected(v, own_fs, root_fs):
         val, u = Fraction(v[0]), v[1]
+        if val == 0:
+            return ('px', Fraction(0))
         if u == '%':
-            return ('pct', val) if val != 0 else ('px', Fraction(0))
+            return ('pct', val)
         if u in ABS:
             return ('px', val * ABS[u])
-        if u == 'em':
-            return ('px', val * own_fs)
-        if u == 'rem':
-            return ('px', val * rootfs)
-        raise ValueError(u)
+        return ('px', val * (own_fs if u == 'em' else root_fs))
 
-    def down(nd, parent):
+    def same_len(exp, got):
+        if exp[0] == 'pct':
+            return isinstance(got, list) and got[0] == 'dim' and got[2] == '%' and near(got[1], exp[1])
+        if isinstance(got, list) and got[0] == 'dim' and got[2] == 'px':
+            return near(got[1], exp[1])
+        return isinstance(got, (int, float)) and near(got, exp[1])
+
+    for nd in nodes:
+        n = nd['n']
+        o = obs.get(n)
+        if o is None:
+            continue
+        par = obs.get(nd['parent']) if nd['parent'] is not None else None
+        is_root = nd['parent'] is None
         st = nd['st']
-        is_root = parent is None
-        pfs = parent['fs'] if parent else Fraction(16)
+        pfs = Fraction(par['fs']) if par else Fraction(16)
+        # the root element's computed font size is the reference of rem everywhere but in its own font-size
+        rfs_font = Fraction(16) if is_root else Fraction(root['fs'])
+        rfs_len = Fraction(o['fs']) if is_root else Fraction(root['fs'])
+        env = dict(own_fs=str(Fraction(o['fs'])), root_fs=str(rfs_font if is_root else Fraction(root['fs'])))
+        # ---- font-size
         v = st.get('font-size')
-        if v == 'initial' or (v is None and is_root) or (v == 'inherit' and is_root):
-            fs = Fraction(16)
-        elif v is None or v == 'inherit':
-            fs = pfs
-        elif v in kw:
-            fs = kw[v]
-        elif v == 'larger':
-            fs = None           # judged by the Coq spec (strictly larger) and the model
-        elif v == 'smaller':
-            fs = None
+        exp = None
+        if v == 'initial' or (is_root and v in (None, 'inherit')):
+            exp = Fraction(16)
+        elif v in (None, 'inherit'):
+            exp = pfs
+        elif isinstance(v, str) and v in KWV:
+            exp = KWV[v]
+        elif v in ('larger', 'smaller'):
+            ok = (o['fs'] > pfs) if v == 'larger' else (0 < o['fs'] < pfs)
+            if pfs > 0 and not ok:
+                bad.append((n, 'font-size', v, 'parent %s' % float(pfs), o['fs']))
         elif v[1] == '%':
-            fs = Fraction(v[0]) * pfs / 100
-        elif v[1] == 'rem':
-            fs = Fraction(v[0]) * (Fraction(16) if is_root else root_fs[0])
+            exp = Fraction(v[0]) * pfs / 100
         else:
-            fs = length(v, pfs, None)[1]
-        res = dict(fs=fs, fs_decl=v)
-        return res
-    return down
+            exp = length_expected(v, pfs, rfs_font)[1]
+        if exp is not None and not near(o['fs'], exp):
+            bad.append((n, 'font-size', v, float(exp), o['fs']))
+        if isinstance(v, list) or v in FS_KW or v in ('larger', 'smaller'):
+            coq.append(coq_direct('font_size', dict(env, parent_fs=None if is_root else str(snap(pfs)), value=
+                                                    v if not isinstance(v, list) else [str(Fraction(v[0])), v[1]]),
+                                  'ok', str(Fraction(o['fs']))))
+        # ---- margin-left (not inherited), text-indent (inherited)
+        for prop, key, inh in (('margin-left', 'ml', False), ('text-indent', 'ti', True)):
+            v = st.get(prop)
+            got = o[key]
+            if isinstance(v, list):
+                exp = length_expected(v, Fraction(o['fs']), rfs_len)
+                if not same_len(exp, got):
+                    sig = 'c06-rem-on-root-element' if (is_root and v[1] == 'rem') else None
+                    bad.append((n, prop, v, (exp[0], float(exp[1])), got, sig))
+                out = 'same' if (isinstance(got, list) and got[2] == '%') else \
+                    str(Fraction(got[1] if isinstance(got, list) else got))
+                coq.append(coq_direct('length', dict(env, fs=None, value=[str(Fraction(v[0])), v[1]]), 'ok', out))
+            else:
+                if v == 'initial' or (v is None and not inh) or (is_root and v in (None, 'inherit')):
+                    ok = same_len(('px', Fraction(0)), got)
+                else:
+                    ok = got == par[key]
+                if not ok:
+                    bad.append((n, prop, v, 'parent/initial', got))
+        # ---- line-height (inherited)
+        v = st.get('line-height')
+        got = o['lh']
+        if v == 'initial' or (is_root and v in (None, 'inherit')) or v == 'normal':
+            ok = got == 'normal'
+        elif v in (None, 'inherit'):
+            ok = got == par['lh']
+        elif v[1] is None:
+            ok = isinstance(got, list) and got[0] == 'NUMBER' and near(got[1], Fraction(v[0]))
+        else:
+            if v[1] == '%':
+                e = Fraction(v[0]) / 100 * Fraction(o['fs'])
+            else:
+                e = length_expected(v, Fraction(o['fs']), rfs_len)[1]
+            ok = isinstance(got, list) and got[0] == 'PIXELS' and near(got[1], e)
+        if not ok:
+            sig = 'c06-rem-on-root-element' if (is_root and isinstance(v, list) and v[1] == 'rem') else None
+            bad.append((n, 'line-height', v, None, got, sig))
+        if isinstance(v, list) and isinstance(got, list):
+            coq.append(coq_direct('line_height', dict(env, value=[str(Fraction(v[0])), v[1]]), 'ok',
+                                  [got[0], str(Fraction(got[1]))]))
+        # ---- font-weight (inherited)
+        v = st.get('font-weight')
+        pw = par['fw'] if par else 400
+        if v == 'initial' or (is_root and v in (None, 'inherit')) or v == 'normal':
+            e = 400
+        elif v in (None, 'inherit'):
+            e = pw
+        elif v == 'bold':
+            e = 700
+        elif v == 'bolder':
+            e = BOLDER(pw)
+        elif v == 'lighter':
+            e = LIGHTER(pw)
+        else:
+            e = v
+        if o['fw'] != e:
+            bad.append((n, 'font-weight', v, e, o['fw']))
+        if v in ('bolder', 'lighter', 'normal', 'bold') or isinstance(v, int):
+            coq.append(coq_direct('font_weight', dict(parent_fw=None if is_root else pw, value=v), 'ok', o['fw']))
+    return bad, coq
+
+
+def run_values_render(run, rng, thorough):
+    docs = [gen_values_doc(rng) for _ in range(1200 if thorough else 260)]
+    cases = [values_case(nodes, via_rules=(i % 3 == 0)) for i, nodes in enumerate(docs)]
+    outs = common.run_impl('impl_c06', 'render_styles', cases, limit=60)
+    coq_all, n_el, keys = [], 0, []
+    for nodes, c, (st, o) in zip(docs, cases, outs):
+        if st != 'ok':
+            run.fail('values-render: render %s %s' % (st, (o or {}).get('type')),
+                     {'stream': 'values-render', 'case': c, 'outcome': o},
+                     signature='c06-crash:%s' % ((o or {}).get('site'),))
+            continue
+        for where in ('direct', 'boxes'):
+            obs = {}
+            for key, vals in o[where].items():
+                n, pseudo = key.split('|')
+                if pseudo:
+                    continue
+                obs[int(n)] = dict(zip(['fs', 'ml', 'lh', 'fw', 'ti'], vals))
+            if where == 'boxes':
+                # boxes carry the same dict; judge only what was not judged through the style function
+                if all(obs.get(n) == o_direct.get(n) for n in obs):
+                    continue
+            else:
+                o_direct = obs
+            if where == 'direct' and set(obs) != {nd['n'] for nd in nodes}:
+                run.fail('values-render: some element has no style', {'stream': 'values-render', 'case': c})
+                continue
+            if where == 'boxes':
+                obs = dict(o_direct, **obs)
+            bad, coq = judge_values(nodes, obs)
+            if where == 'direct':
+                coq_all += coq
+                n_el += len(obs)
+            for b in bad[:1]:
+                run.fail('values-render: element data-n=%s %s: %r computes to %r, expected %r (%s)' % (
+                    b[0], b[1], b[2], b[4], b[3], where),
+                    {'stream': 'values-render', 'case': c, 'element': b[0], 'prop': b[1], 'declared': str(b[2]),
+                     'expected': str(b[3]), 'got': b[4], 'all': [str(x) for x in bad[:8]]},
+                    signature=(b[5] if len(b) > 5 and b[5] else 'c06-values-mismatch'))
+        keys.append(c['html'][:600])
+    try:
+        masks = common.eval_cases('c06vals', PRE, 'dcase', coq_all, 'judge_direct', per_file=300)
+        run.oblige('corr:values-render(hand models of font_size/length/line_height/font_weight vs rendered styles)',
+                   not any(m & 1 for m in masks), str([c for c, m in zip(coq_all, masks) if m & 1][:3]))
+        for c, m in zip(coq_all, masks):
+            if m & 2:
+                run.fail('values-render: a computed value contradicts the CSS definition (Coq spec): %s' % c,
+                         {'stream': 'values-render', 'coq_case': c}, signature='c06-values-mismatch')
+                break
+    except RuntimeError as exc:
+        run.oblige('corr:values-render', False, str(exc))
+    run.count('values-render', len(docs), keys, samples=[cases[0]['html'][:500]])
+    run.stream_info('values-render', elements=n_el, coq_cases=len(coq_all),
+                    rule='random trees (3..10 elements) with font-size (px em % rem pt mm pc in cm q, keywords, '
+                    'larger/smaller), margin-left, text-indent, line-height (number % em rem), font-weight '
+                    '(bolder/lighter/normal/bold/numbers), inherit/initial, as style attributes or rules; every '
+                    'element judged against its declarations and the observed values of its parent and of the root')
+
+
+# ---------------------------------------------------------------------------------------------- @page declarations
+
+PAGE_SELS = [('', (0, 0, 0), lambda i: True), (':first', (0, 1, 0), lambda i: i == 0),
+             (':left', (0, 0, 1), lambda i: i % 2 == 1), (':right', (0, 0, 1), lambda i: i % 2 == 0),
+             (':first:right', (0, 1, 1), lambda i: i == 0), (':left:first', (0, 1, 1), lambda i: False),
+             (':blank', (0, 1, 0), lambda i: False)]
+PAGE_PROPS = {'margin-top': 21, 'margin-bottom': 22, 'padding-left': 23}
+
+
+def gen_page_doc(rng):
+    vid = [0]
+
+    def rules(k):
+        items = []
+        for _ in range(k):
+            sels = [rng.choice(PAGE_SELS)] if rng.random() < 0.75 else [rng.choice(PAGE_SELS[1:]) for _ in range(2)]
+            decls = []
+            for _ in range(rng.choice([1, 1, 2])):
+                vid[0] += 1
+                decls.append(dict(prop=rng.choice(sorted(PAGE_PROPS)), vid=vid[0], imp=rng.random() < 0.25))
+            it = ('page', sels, decls)
+            if rng.random() < 0.15:
+                it = ('media', rng.choice([['print'], ['screen'], ['all']]), [it])
+            items.append(it)
+        return items
+    sheets = [dict(kind='ua', items=rules(rng.choice([0, 1])))]
+    for _ in range(rng.choice([0, 1, 1])):
+        sheets.append(dict(kind='user', items=rules(rng.choice([1, 2]))))
+    for _ in range(rng.choice([1, 1, 2])):
+        sh = dict(kind=rng.choice(['style', 'style', 'link']), items=rules(rng.choice([1, 2, 3])))
+        if rng.random() < 0.3:
+            sh['items'] = [('import', None, None, rules(rng.choice([1, 2])))] + sh['items']
+        sheets.append(sh)
+    return dict(sheets=sheets, device='print')
+
+
+def page_items_text(items, files, counter):
+    out = []
+    for it in items:
+        if it[0] == 'page':
+            out.append('@page %s { %s }' % (', '.join(s[0] for s in it[1]), '; '.join(
+                '%s: %dpx%s' % (d['prop'], d['vid'], ' !important' if d['imp'] else '') for d in it[2])))
+        elif it[0] == 'media':
+            out.append('@media %s { %s }' % (media_text(it[1]), page_items_text(it[2], files, counter)))
+        elif it[0] == 'import':
+            counter[0] += 1
+            url = 'http://mem/p%d.css' % counter[0]
+            files[url] = page_items_text(it[3], files, counter)
+            out.append('@import url(%s);' % url)
+    return '\n'.join(out)
+
+
+def page_flatten(items, device):
+    out = []
+    for it in items:
+        if it[0] == 'page':
+            out.append(it)
+        elif it[0] == 'media':
+            if media_applies(it[1], device):
+                out += page_flatten(it[2], device)
+        elif it[0] == 'import':
+            out += page_flatten(it[3], device)
+    return out
+
+
+def run_page_render(run, rng, thorough):
+    docs = [gen_page_doc(rng) for _ in range(600 if thorough else 150)]
+    cases = []
+    for d in docs:
+        files, counter, user, ua, head, li = {}, [0], [], UA_BASE, '', 0
+        for sh in d['sheets']:
+            text = page_items_text(sh['items'], files, counter)
+            if sh['kind'] == 'ua':
+                ua += text
+            elif sh['kind'] == 'user':
+                user.append(text)
+            elif sh['kind'] == 'style':
+                head += '<style>%s</style>' % text
+            else:
+                li += 1
+                files['http://mem/pl%d.css' % li] = text
+                head += '<link rel=stylesheet href="http://mem/pl%d.css">' % li
+        cases.append(dict(html='<!DOCTYPE html><html><head>%s</head><body><p>a</p><p style="break-before: page">b</p>'
+                          '<p style="break-before: page">c</p></body></html>' % head, ua_css=ua, user_css=user,
+                          files=files, media='print', hints=False, keys=[], attr='data-n', direct=False,
+                          page_keys=[k.replace('-', '_') for k in sorted(PAGE_PROPS)]))
+    outs = common.run_impl('impl_c06', 'render_styles', cases, limit=60)
+    coq_cases, kept = [], []
+    origin_lit = {'ua': 'UA', 'user': 'User', 'style': 'Author', 'link': 'Author'}
+    for d, c, (st, o) in zip(docs, cases, outs):
+        if st != 'ok':
+            run.fail('page-render: render %s %s' % (st, (o or {}).get('type')), {'stream': 'page-render', 'case': c,
+                     'outcome': o}, signature='c06-crash:%s' % ((o or {}).get('site'),))
+            continue
+        if len(o.get('pages', [])) != 3:
+            run.fail('page-render: expected 3 pages', {'stream': 'page-render', 'case': c, 'pages': o.get('pages')})
+            continue
+        ordered = [s for s in d['sheets'] if s['kind'] == 'ua'] + \
+                  [s for s in d['sheets'] if s['kind'] in ('style', 'link')] + [s for s in d['sheets'] if s['kind'] == 'user']
+        for i, vals in enumerate(o['pages']):
+            cands = {}
+            sheets_lit = []
+            for si, sh in enumerate(ordered):
+                rl = []
+                for ri, (_, sels, decls) in enumerate(page_flatten(sh['items'], 'print')):
+                    rl.append('([%s], [%s])' % (
+                        '; '.join('(%s, 0, %s)' % (spec_lit(sp), blit(pred(i))) for _, sp, pred in sels),
+                        '; '.join('(mkr %d %s %s)' % (PAGE_PROPS[x['prop']], zlit(x['vid']), blit(x['imp'])) for x in decls)))
+                    for ki, (_, sp, pred) in enumerate(sels):
+                        if pred(i):
+                            for di, x in enumerate(decls):
+                                rank = RANK[('author' if sh['kind'] in ('style', 'link') else sh['kind'], x['imp'])]
+                                cands.setdefault(x['prop'], []).append(((rank, sp, si, ri, ki, di), x['vid']))
+                sheets_lit.append('(%s, None, [%s])' % (origin_lit[sh['kind']], '; '.join(rl)))
+            obs = []
+            for prop, v in zip(sorted(PAGE_PROPS), vals):
+                got = _dec_px(v)
+                exp = max(cands[prop], key=lambda kv: kv[0])[1] if prop in cands else None
+                obs.append((PAGE_PROPS[prop], got))
+                if exp is not None and got != exp:
+                    run.fail('page-render: page %d %s: the cascade selects %spx, the page box has %r' % (i, prop, exp, v),
+                             {'stream': 'page-render', 'case': c, 'page': i, 'prop': prop, 'expected': exp, 'got': v},
+                             signature='c06-page-cascade-mismatch')
+            # the initial page margin is not 0: only judge declared properties in Coq
+            obs = [(k, g) for (k, g), prop in zip(obs, sorted(PAGE_PROPS)) if prop in cands and g is not None]
+            coq_cases.append('(0, [%s], [%s])' % ('; '.join(sheets_lit),
+                                                  '; '.join('(%d, %s)' % (k, zlit(g)) for k, g in obs)))
+            kept.append((c, i))
+    try:
+        masks = common.eval_cases('c06page', PRE, 'Z * list (page_sheet Z) * list (Z * Z)', coq_cases, 'judge_page',
+                                  per_file=150)
+        bad = [k for k, m in zip(kept, masks) if m]
+        run.oblige('corr:page-render(Coq add_page_declarations model vs page box styles)', not bad,
+                   json.dumps(bad[:1])[:2500])
+    except RuntimeError as exc:
+        run.oblige('corr:page-render', False, str(exc))
+    run.count('page-render', len(docs), [c['html'][:300] + c['ua_css'][-150:] + str(c['user_css']) for c in cases],
+              samples=[cases[0]['html'][:400]])
+    run.stream_info('page-render', pages_judged=len(kept),
+                    rule='@page rules (no selector, :first, :left, :right, :first:right, :blank, lists) with margin / '
+                    'padding declarations +-!important over UA, user, author <style>/<link>/@import/@media; 3 pages each')
 
 
 # =============================================================================================== check
@@ -1292,7 +1618,8 @@ def check(run):
     # ---- direct streams
     run_direct(run, rng, thorough)
     # ---- random documents
-    docs = [gen_doc(rng) for _ in range(2000 if thorough else 420)]
+    attr_case = finding_listed('c06-stylesheet-attr-case')
+    docs = [gen_doc(rng, attr_case) for _ in range(2000 if thorough else 420)]
     run_cascade_stream(run, 'cascade-render', docs, thorough)
     run.stream_info('cascade-render', rule='random DOM (<= 12 elements) x 1..8 rules over UA / user / author (<style> in '
                     'head or body, <link>, @import chains, style=, presentational hints), +-!important, @media blocks '
@@ -1314,6 +1641,8 @@ def check(run):
     for k in K:
         tdocs.append(tuple_doc((k,), 'div', 0))
     run_cascade_stream(run, 'cascade-tuples', tdocs, thorough)
+    run_values_render(run, rng, thorough)
+    run_page_render(run, rng, thorough)
     run.stream_info('cascade-tuples', kinds=len(KINDS),
                     rule='all ordered pairs (x 2 targets x 2 sheet layouts) and %s ordered triples of %d declaration '
                     'kinds (origin x container x selector specificity x importance, style attribute, presentational '
@@ -1337,7 +1666,7 @@ def replay(data):
         if 'fn' in d:
             (st, o), = common.run_impl('impl_c06', d['fn'], [d['case']])
             print('replay:', st, o)
-            m = common.eval_cases('c06replay', PRE + 'Open Scope Q_scope.\n', 'dcase',
+            m = common.eval_cases('c06replay', PRE, 'dcase',
                                   [coq_direct(d['fn'], d['case'], st, o)], 'judge_direct')
             print('judge mask', m)
             return 1 if m[0] else 0
